@@ -82,14 +82,14 @@ def ini_text(cfg):
     return "\n".join(lines) + "\n"
 
 
-def run_child(argv, use_pty):
-    """-> (rc, stdout text, stderr text)"""
+def run_child(argv, tty):
+    """tty: False/"" (both pipes), "both", "out" (only stdout is a terminal), "err" (only stderr is). -> (rc, stdout text, stderr text)"""
     env = dict(os.environ, LC_ALL="C.UTF-8", TZ="UTC", QT_LOGGING_RULES="*.debug=true", QT_MESSAGE_PATTERN="", QT_FATAL_WARNINGS="")
-    if not use_pty:
+    if not tty:
         r = subprocess.run(argv, capture_output=True, timeout=60, env=env)
         return r.returncode, r.stdout.decode("utf-8", "replace"), r.stderr.decode("utf-8", "replace")
-    mo, so = pty.openpty()
-    me, se = pty.openpty()
+    mo, so = pty.openpty() if tty in ("both", "out", True) else os.pipe()
+    me, se = pty.openpty() if tty in ("both", "err", True) else os.pipe()
     p = subprocess.Popen(argv, stdout=so, stderr=se, stdin=subprocess.DEVNULL, env=env, close_fds=True)
     os.close(so)
     os.close(se)
@@ -129,7 +129,22 @@ def read_files(d):
     act = os.path.join(d, "app.log")
     if os.path.exists(act):
         text += open(act, "rb").read()
-    return text.decode("utf-8", "replace"), len(names)
+    return text.decode("utf-8", "replace"), len(names), names
+
+
+def file_shape(names, compress, startup, size_small, daily, first_run_wrote, what):
+    """which rotated files must exist and what they must be called, from the file keys alone"""
+    v = []
+    gz = [n for n in names if n.endswith(".gz")]
+    if compress and len(gz) != len(names):
+        v.append(("file:not-compressed", "%s: compress_old_files is set but rotated files are left uncompressed: %r" % (what, [n for n in names if not n.endswith(".gz")][:3])))
+    if not compress and gz:
+        v.append(("file:compressed", "%s: compress_old_files is not set but rotated files are compressed: %r" % (what, gz[:3])))
+    if startup and first_run_wrote and not names:
+        v.append(("file:no-startup-rotation", "%s: rotate_on_startup is on and the second run found a non-empty log, but no rotated file exists" % what))
+    if not startup and not size_small and not daily and names:
+        v.append(("file:unexpected-rotation", "%s: nothing asks for a rotation (rotate_on_startup off, default size limit, no daily rotation) but rotated files exist: %r" % (what, names[:3])))
+    return v
 
 
 def lines_of(text):
@@ -150,9 +165,10 @@ def judge_stream(name, got_lines, msgs, cfg, copies, colored, what):
         for c in range(copies):
             line = got_lines[i * copies + c]
             plain = ANSI.sub("", line)
-            if colored is True and not (line.startswith(COLOR[m[0]]) and line.endswith("\x1b[0m")):
+            col = colored[c] if isinstance(colored, (list, tuple)) else colored
+            if col is True and not (line.startswith(COLOR[m[0]]) and line.endswith("\x1b[0m")):
                 v.append(("%s:colour-missing" % name, "%s: line %r on %s is not wrapped in the colour of a %s message" % (what, line, name, m[0])))
-            if colored is False and plain != line:
+            if col is False and plain != line:
                 v.append(("%s:colour-unexpected" % name, "%s: line %r on %s carries colour codes although colour is off / the stream is no terminal" % (what, line, name)))
             f = fmt(cfg, m)
             if f is not None:
@@ -173,7 +189,7 @@ def one_ini(job):
             c["path"] = os.path.join(d, "app.log")
         ini = os.path.join(d, "cfg.ini")
         open(ini, "w").write(ini_text(c))
-        what = "INI %s" % json.dumps({k: v for k, v in cfg.items() if v is not None}, sort_keys=True)
+        what = "INI %s%s" % (json.dumps({k: v for k, v in cfg.items() if v is not None}, sort_keys=True), " [terminal: %s]" % use_pty if use_pty else "")
         viols, all_msgs, renderings = [], [], {}
         runs = 2 if c.get("path") else 1
         for run in range(runs):
@@ -187,13 +203,16 @@ def one_ini(job):
             ol, el = lines_of(so), lines_of(se)
             if not out_on and ol:
                 viols.append(("stdout:unconfigured", "%s: output on stdout although no stdout key is set: %r" % (what, ol[:3])))
+            out_tty, err_tty = use_pty in ("both", "out", True), use_pty in ("both", "err", True)
             if out_on:
-                viols += judge_stream("stdout", ol, msgs, cfg, 1, (bool(cfg.get("stdout_color")) if use_pty else False), what)
+                viols += judge_stream("stdout", ol, msgs, cfg, 1, bool(cfg.get("stdout_color")) and out_tty, what)
             if err_copies == 0 and el:
                 viols.append(("stderr:unconfigured", "%s: output on stderr although neither stderr nor platform_std_log is on: %r" % (what, el[:3])))
             if err_copies:
                 # the stderr sink (coloured on a terminal when stderr_color) comes first, the platform sink (Auto colour) second
-                viols += judge_stream("stderr", el, msgs, cfg, err_copies, None, what)
+                # copy 1 = the stderr sink (colour only when stderr_color is set and stderr is a terminal), copy 2 = the platform sink (never coloured)
+                cols = ([bool(cfg.get("stderr_color")) and err_tty] if (cfg.get("stderr") or cfg.get("stderr_color")) else []) + ([False] if cfg.get("platform_std_log") is not False else [])
+                viols += judge_stream("stderr", el, msgs, cfg, err_copies, cols, what)
             # all streams show the same formatted text
             po, pe = [ANSI.sub("", x) for x in ol], [ANSI.sub("", x) for x in el]
             if out_on and err_copies and not viols and po != pe[::err_copies]:
@@ -205,8 +224,10 @@ def one_ini(job):
                     renderings.setdefault(m[2], set()).add(re.sub(r"^\S+ \S+ ", "", line, count=1))
         nrot = 0
         if c.get("path"):
-            text, nrot = read_files(d)
+            text, nrot, rnames = read_files(d)
             fl = lines_of(text)
+            viols += file_shape(rnames, bool(cfg.get("compress_old_files")), cfg.get("rotate_on_startup") is not False, (cfg.get("max_file_size") or 0) > 0,
+                                bool(cfg.get("rotate_daily")), bool(expected_msgs(cfg, 0)), what)
             retention = (cfg.get("max_file_size") or 0) > 0     # small size limit: more rotations than max_file_count (2, or 5 by default) keeps
             full = len(all_msgs)
             if retention:
@@ -246,9 +267,10 @@ def one_line(job):
             err_all += el
         nrot = 0
         if has_path:
-            text, nrot = read_files(d)
+            text, nrot, rnames = read_files(d)
             fl = lines_of(text)
             want = [ANSI.sub("", x) for x in err_all]
+            viols += file_shape(rnames, bool(opts & 4), bool(opts & 1), size > 0, bool(opts & 2), True, what)
             if count >= 2 and size > 0:
                 k = len(fl)
                 if k > len(want) or k == 0 or fl != want[len(want) - k:]:
@@ -296,7 +318,7 @@ def run(tier):
         ptyc = [c for c in cfgs if not c.get("path") and not c.get("filter_rules") and not c.get("regexp_filter") and c.get("message_pattern")]
         if tier == "quick":
             ptyc = ptyc[::3]
-        jobs += [(exe, root, c, True, "ini") for c in ptyc]
+        jobs += [(exe, root, c, tty, "ini") for c in ptyc for tty in ("both", "out", "err")]
         one = [(exe, root, (hp, size, cnt, opts, a), False) for hp in (False, True) for size in (0, 60) for cnt in (0, 2) for opts in range(8) for a in (False, True)]
         with concurrent.futures.ThreadPoolExecutor(max_workers=vlib.NCPU) as ex:
             res = list(ex.map(one_ini, jobs))
@@ -345,7 +367,8 @@ def run(tier):
              "compress_old_files) x {async: absent / true}; each configuration is one child process per run (two runs = a restart when a file is configured) that loads the INI through configureFromIniFile() or a QSettings "
              "object, logs six messages (two categories + default, four types, one not matching the regexp) through Qt's macros and stops; oracle per stream: exactly the messages passing the configured filters (independent "
              "Python rule/regex reference), once per configured output and in order (stderr carries one copy per stderr-type output), formatted exactly when a pattern is given and otherwise carrying text + [category], no output "
-             "on an unconfigured stream, no file without a path, files (rotated + gzip decoded, in date/index order) hold every line once (a line-aligned suffix under retention); a pty variant checks colour on/off per key. "
+             "on an unconfigured stream, no file without a path, files (rotated + gzip decoded, in date/index order) hold every line once (a line-aligned suffix under retention); terminal variants (both streams / only stdout / only stderr on a pty) check colour per key and per stream; "
+             "with a file: rotated files are .gz exactly when compress_old_files is set, a restart rotates the old file exactly when rotate_on_startup is on. "
              "(b) one-line configure(): all 128 argument tuples, file text == stderr text minus colour codes. (c) handler protocol: every history up to the depth bound of install(A) / install(B) / restore / foreign(F1) / "
              "foreign(F2) on the real functions, observed by emitting a message after every step, against the reference model of the property (accept-set where a foreign handler was installed between two installs)",
         assumptions=["PrettyFormatter's column layout is not a documented contract: without message_pattern a line is matched by message text and [category]", "QT_LOGGING_RULES=*.debug=true so that Qt's own category switch lets every message through to the handler",
